@@ -39,7 +39,15 @@ RULE = ("(a) every key of the regenerated table, pattern keys of online_filter/f
         "shape (raw h5py, new_dataset, export, compress; model attr map); strings over all "
         "printable ASCII punctuation and non-ASCII through Configuration.save -> "
         "Configuration(files=)/load_from_file: loaded == assignment of clean_text(rendering), "
-        "plain strings are fixed points, second save -> load stable. distinct = distinct "
+        "plain strings are fixed points, second save -> load stable; floats of 1-17 significant "
+        "digits and magnitude 1e-12..1e12 and integers up to 1e15 through the same route "
+        "(|loaded - x| <= 0.5e-12, integers exact). (e) every route (section update, "
+        "Configuration.update, Configuration(cfg=), ConfigurationDict(sec, src), "
+        "Configuration(files=)) x every kind of source (dict, ConfigurationDict with same / no "
+        "/ other section, Configuration strict / disable_checks, a dataset's config, a loaded "
+        "file) x keys valid/unknown/mixed-case x values of all representations incl. ''/None: "
+        "the target equals item-by-item assignment of the source's items (state, warnings, "
+        "exception class). distinct = distinct "
         "(section,key,tagged value) cases / histories that reached a converter or a rejection "
         "branch.")
 TRUSTED_BASE = [
@@ -55,6 +63,9 @@ ASSUMPTIONS = ["the configuration-file loader strips exactly: everything from th
                "white space at both ends, then ' and blanks, then \" and blanks, then white space "
                "(Meta.cleanText); values that are empty afterwards are skipped; newlines are "
                "not generated",
+               "Configuration.tostring writes floats as '{:.12f}': 12 decimals, i.e. a float "
+               "read back differs by at most 0.5e-12 (exactly equal once |x| >= 2**13, where "
+               "the spacing of doubles exceeds that); integers and strings are written exactly",
                "HDF5 attributes return numpy scalars/arrays of the stored kind (measured)",
                "text rendering precision of Configuration.tostring ({:.12f}) is outside the model; "
                "the configuration-file claim is about the text that is read"]
@@ -885,7 +896,7 @@ def run_replay_case(ctx, rp, attrs=None, verbose=False):
         if kind == "carry":
             entries = [(s, k, dec(t)) for s, k, t in rp["entries"]]
             return carry_through(ctx, entries, 99)
-        if kind in ("reghist", "storehist", "text"):
+        if kind in ("reghist", "storehist", "text", "sources"):
             from . import c11_hist
             return c11_hist.replay_case(ctx, rp, verbose=verbose)
         if kind == "file":
@@ -975,7 +986,8 @@ def run(ctx):
 
     # ---- 3. configuration file route ---------------------------------------------------
     file_cases = []
-    table_keys = [(s, k) for s, k, kl in keys if kl in ("table", "pattern", "user")]
+    table_keys = [(s, k) for s, k, kl in keys if kl in ("table", "pattern", "user")
+                  or (kl == "invalid" and k.strip() and s in dfn.config_keys)]
     for idx, (sec, key) in enumerate(table_keys):
         for _ in range(ctx.n(1, 4)):
             R = representations(rng)
@@ -1116,6 +1128,7 @@ def run(ctx):
     c11_hist.part_registry(ctx, hist_lines, checks, spec_fail)
     c11_hist.part_store_hist(ctx, hist_lines, checks, spec_fail)
     c11_hist.part_text(ctx, hist_lines, checks, spec_fail)
+    c11_hist.part_sources(ctx, hist_lines, checks, spec_fail)
     off = len(lines)
     lines += hist_lines
 
@@ -1146,6 +1159,21 @@ def run(ctx):
         for li, want, what, mode, deps in checks:
             m = out[off + li]
             if "unmodelled" in m:
+                continue
+            if mode == "number":
+                # model: exact value of the written decimal; implementation: nearest double
+                from fractions import Fraction
+                toks = m.split(" ")
+                ok_num = False
+                if toks[0] == "stored" and toks[1][:2] in ("f:", "i:"):
+                    try:
+                        ok_num = float(Fraction(toks[1][2:])) == float(want) and \
+                            (toks[1][0] == "i") == (type(want) is int)
+                    except Exception:
+                        ok_num = False
+                ctx.stat("history_model_checks")
+                if not ok_num:
+                    mirror_bad.append(f"{what}: impl {want!r} model '{m}'")
                 continue
             if mode == "attr":
                 if any(out[off + j] != "ok" for j in deps):
